@@ -125,6 +125,9 @@ def function_interpolate(function, x, eps = 1e-9, start_tens = None, nswp = 20, 
         N = x.N
     device = None
     
+    if start_tens is not None and (start_tens.is_ttm or start_tens.N != list(N)):
+        raise torchtt.errors.ShapeMismatch('The initial approximation must be a TT tensor of the shape of the argument.')
+
     if not eval_mv and len(N)==1:
         return torchtt.TT(function(x.full())).to(device)
 
@@ -442,6 +445,8 @@ def dmrg_cross(function, N, eps = 1e-9, nswp = 10, x_start = None, kick = 2, dty
         cores = torchtt.random(N,rank_init, dtype, device).cores
         rank = [1]+[rank_init]*(d-1)+[1]
     else:
+        if x_start.is_ttm or x_start.N != list(N):
+            raise torchtt.errors.ShapeMismatch('The initial approximation must be a TT tensor of shape N.')
         rank = x_start.R.copy()
         cores = [c+0 for c in x_start.cores]
     # cores = (ones(N,dtype=dtype)).cores
